@@ -134,6 +134,10 @@ Record wf_env (e : renv) : Prop := {
 Definition hdr_is (e : renv) (k fs : N) : Prop :=
   exists it, nthI (e_items e) k = Some it /\ i_hdr it = fs.
 
+(* the item at the reader's counter k is not the acceptable next frame *)
+Definition bad_at (e : renv) (k : N) : Prop :=
+  exists it, nthI (e_items e) k = Some it /\ item_good (e_cfg e) it k = false.
+
 (* D = number of plaintext bytes delivered so far = stream position of the next byte owed *)
 Definition Inv (e : renv) (D : N) (r : reader) : Prop :=
   let M := cmax (e_cfg e) in
@@ -164,16 +168,19 @@ Definition Inv (e : renv) (D : N) (r : reader) : Prop :=
       (r_nread r <= M \/ r_nread r <= r_offset r + pfs) /\
       poff < psize /\ D = r_pbase r + poff /\ r_pbase r + psize = P
   | ProcPend _ _ _, Some _ => False
+  | Failed, _ => bad_at e (r_ctr r) /\ D = P
   end.
+
+Definition carrier_err (err : N) : Prop := err = E_EOF \/ (6 <= err /\ err <= 9).
 
 Definition res_ok (e : renv) (b D : N) (x : rres) (r' : reader) : Prop :=
   match x with
   | RReady n pos => pos = D /\ n <= b /\ (1 <= b -> 1 <= n) /\ Inv e (D + n) r'
   | RPending => Inv e D r'
   | RErr err =>
-      (err = E_EOF /\ Inv e D r' /\ exists mr, r_state r' = ReadData mr) \/
-      (err = E_INVALID /\ exists it, nthI (e_items e) (r_ctr r') = Some it /\
-                                     item_good (e_cfg e) it (r_ctr r') = false)
+      Inv e D r' /\
+      ((carrier_err err /\ exists mr, r_state r' = ReadData mr) \/
+       (err = E_INVALID /\ r_state r' = Failed))
   | RPanic => False
   end.
 
@@ -191,7 +198,7 @@ Proof.
   rewrite H0, H1. repeat split; lia.
 Qed.
 
-Ltac rfields := cbn [r_state r_nread r_offset r_cfs r_wbase r_ctr r_pbase] in *.
+Ltac rfields := cbn [r_state r_nread r_offset r_cfs r_wbase r_ctr r_pbase r_lp set_lp] in *.
 
 Lemma good_false_hdr c it k : i_hdr it <= TAG -> item_good c it k = false.
 Proof. unfold item_good. intro H. destruct (TAG <? i_hdr it) eqn:E; [lia|]. now rewrite !andb_false_r. Qed.
@@ -200,13 +207,11 @@ Lemma step_len_inv e D r r1 res : wf_env e -> Inv e D r -> r_state r = ReadFrame
   step_len e r = (r1, res) ->
   match res with
   | None => Inv e D r1 /\ (r_state r1 = ProcNone \/ exists mr, r_state r1 = ReadData mr)
-  | Some x => x = RErr E_INVALID /\
-              exists it, nthI (e_items e) (r_ctr r1) = Some it /\
-                         item_good (e_cfg e) it (r_ctr r1) = false
+  | Some x => x = RErr E_INVALID /\ r_state r1 = Failed /\ Inv e D r1
   end.
 Proof.
   intros W HI Hs. pose proof (cmax_ge e W) as HM.
-  destruct r as [st nread offset cfs wbase ctr pbase]. cbn [r_state] in Hs. subst st.
+  destruct r as [st nread offset cfs wbase ctr pbase lp]. cbn [r_state] in Hs. subst st.
   unfold step_len, Inv in *. rfields.
   set (M := cmax (e_cfg e)) in *.
   destruct cfs as [fs|].
@@ -223,8 +228,8 @@ Proof.
       * destruct (nread + fs <? M) eqn:E4; intros [= <- <-]; rfields; fold M;
           (split; [|right; eauto]); repeat split; try assumption; try lia.
       * destruct (fs <=? TAG) eqn:E5; intros [= <- <-]; rfields; fold M.
-        -- split; [reflexivity|]. exists it. split; [assumption|].
-           apply good_false_hdr. lia.
+        -- split; [reflexivity|]. split; [reflexivity|]. split; [lia|]. split; [|assumption].
+           exists it. split; [assumption|]. apply good_false_hdr. lia.
         -- split; [|left; reflexivity]. repeat split; try assumption; try lia.
   - destruct HI as (Hp & Hcur & HD & Hon & Hnr).
     destruct (nread <? offset) eqn:E1; [lia|].
@@ -242,8 +247,8 @@ Proof.
       * destruct (nread + fs <? M) eqn:E4; intros [= <- <-]; rfields; fold M;
           (split; [|right; eauto]); repeat split; try assumption; try lia.
       * destruct (fs <=? TAG) eqn:E5; intros [= <- <-]; rfields; fold M.
-        -- split; [reflexivity|]. exists it. split; [assumption|].
-           apply good_false_hdr. fold fs. lia.
+        -- split; [reflexivity|]. split; [reflexivity|]. split; [lia|]. split; [|assumption].
+           exists it. split; [assumption|]. apply good_false_hdr. fold fs. lia.
         -- split; [|left; reflexivity]. repeat split; try assumption; try lia.
 Qed.
 
@@ -266,7 +271,7 @@ Lemma proc_inv e D b r r2 x : wf_env e -> Inv e D r ->
   proc e b r = (r2, x) -> res_ok e b D x r2.
 Proof.
   intros W HI Hs. pose proof (cmax_ge e W) as HM. pose proof (rbuf_eq (e_cfg e)) as HB.
-  destruct r as [st nread offset cfs wbase ctr pbase]. cbn [r_state] in Hs.
+  destruct r as [st nread offset cfs wbase ctr pbase lp]. cbn [r_state] in Hs.
   unfold proc, Inv in *. rfields.
   set (M := cmax (e_cfg e)) in *.
   destruct Hs as [-> | (poff & psize & pfs & ->)].
@@ -274,6 +279,11 @@ Proof.
     destruct HI as (Hp & Hcur & Hhd & HD & Htag & Hfit & HoM & Hnr).
     destruct Hhd as (it & Hit & Hh).
     pose proof (wf_hdr e W it (nthI_in _ _ _ Hit)) as Hfs. rewrite Hh in Hfs.
+    assert (HF : item_good (e_cfg e) it ctr = false ->
+              res_ok e b D (RErr E_INVALID) (mkR Failed nread offset None wbase ctr pbase lp)).
+    { intro Hb. unfold res_ok, Inv. rfields.
+      split; [|right; split; reflexivity]. split; [assumption|]. split; [|assumption].
+      exists it. split; assumption. }
     destruct (fs <? TAG) eqn:E1; [lia|].
     destruct (rbuf_len (e_cfg e) <? offset + fs) eqn:E2; [lia|].
     destruct (nread <? offset + fs) eqn:E3; [lia|].
@@ -290,15 +300,13 @@ Proof.
       * intros [= <- <-]. unfold res_ok, Inv. rfields. fold M.
         repeat split; try lia.
       * destruct (c_mfl (e_cfg e) <? fs - TAG) eqn:E6.
-        -- intros [= <- <-]. unfold res_ok. rfields. right. split; [reflexivity|].
-           exists it. split; [assumption|]. apply good_false_mfl. lia.
+        -- intros [= <- <-]. apply HF. apply good_false_mfl. lia.
         -- intros [= <- <-]. unfold res_ok, Inv. rfields. fold M.
            repeat split; try lia.
     + assert (Hbad : item_good (e_cfg e) it ctr = false) by (eapply good_false_body; eassumption).
       destruct (fs - TAG <=? b) eqn:E5.
-      * intros [= <- <-]. unfold res_ok. rfields. right. split; [reflexivity|]. eauto.
-      * destruct (c_mfl (e_cfg e) <? fs - TAG) eqn:E6;
-          intros [= <- <-]; unfold res_ok; rfields; right; (split; [reflexivity|]); eauto.
+      * intros [= <- <-]. apply HF. assumption.
+      * destruct (c_mfl (e_cfg e) <? fs - TAG) eqn:E6; intros [= <- <-]; apply HF; assumption.
   - destruct cfs as [fs|]; [tauto|].
     destruct HI as (Hp & Hcur & Hfit & HoM & Hnr & Hpo & HD & HP).
     destruct (psize <? poff) eqn:E1; [lia|].
@@ -310,7 +318,7 @@ Lemma readdata_bounds e D r mr : wf_env e -> Inv e D r -> r_state r = ReadData m
   r_nread r < mr /\ mr <= rbuf_len (e_cfg e).
 Proof.
   intros W HI Hs. pose proof (cmax_ge e W) as HM. pose proof (rbuf_eq (e_cfg e)) as HB.
-  destruct r as [st nread offset cfs wbase ctr pbase]. cbn [r_state] in Hs. subst st.
+  destruct r as [st nread offset cfs wbase ctr pbase lp]. cbn [r_state] in Hs. subst st.
   unfold Inv in HI. rfields. set (M := cmax (e_cfg e)) in *.
   destruct cfs as [fs|].
   - destruct HI as (Hp & Hcur & (it & Hit & Hh) & HD & Hon & Hlt & HoM & Hmr & Hins).
@@ -318,12 +326,12 @@ Proof.
   - lia.
 Qed.
 
-Lemma read_inv e D r mr k : wf_env e -> Inv e D r -> r_state r = ReadData mr ->
+Lemma read_inv e D r mr k l : wf_env e -> Inv e D r -> r_state r = ReadData mr ->
   k <= mr - r_nread r -> k <= e_avail e - (r_wbase r + r_nread r) ->
-  Inv e D (mkR ReadFrameLen (r_nread r + k) (r_offset r) (r_cfs r) (r_wbase r) (r_ctr r) (r_pbase r)).
+  Inv e D (mkR ReadFrameLen (r_nread r + k) (r_offset r) (r_cfs r) (r_wbase r) (r_ctr r) (r_pbase r) l).
 Proof.
   intros W HI Hs Hk1 Hk2. pose proof (cmax_ge e W) as HM.
-  destruct r as [st nread offset cfs wbase ctr pbase]. cbn [r_state] in Hs. subst st.
+  destruct r as [st nread offset cfs wbase ctr pbase lp]. cbn [r_state] in Hs. subst st.
   unfold Inv in *. rfields. set (M := cmax (e_cfg e)) in *.
   destruct cfs as [fs|].
   - destruct HI as (Hp & Hcur & Hhd & HD & Hon & Hlt & HoM & Hmr & Hins).
@@ -331,85 +339,105 @@ Proof.
   - repeat split; try lia.
 Qed.
 
+Lemma inv_set_lp e D r l : Inv e D r -> Inv e D (set_lp r l).
+Proof. destruct r. unfold Inv, set_lp. rfields. trivial. Qed.
+
+Lemma ecode_range k : 6 <= ecode k /\ ecode k <= 9.
+Proof. unfold ecode. destruct ((6 <=? k) && (k <=? 8)) eqn:E; lia. Qed.
+
+Lemma poll_go_inv e b : wf_env e -> forall sc D r x r' sc',
+  Inv e D r -> poll_go e b sc r = (x, r', sc') -> res_ok e b D x r'.
+Proof.
+  intros W.
+  assert (Hpre : forall D r r1 res, Inv e D r ->
+            match r_state r with ReadFrameLen => step_len e r | _ => (r, None) end = (r1, res) ->
+            match res with
+            | None => Inv e D r1 /\ r_state r1 <> ReadFrameLen
+            | Some y => y = RErr E_INVALID /\ r_state r1 = Failed /\ Inv e D r1
+            end).
+  { intros D r r1 res HI Epre. destruct (r_state r) eqn:Es.
+    2:{ pose proof (step_len_inv e D r r1 res W HI Es Epre) as H.
+        destruct res; [exact H|]. destruct H as [H1 [H2|[mr H2]]]; split; congruence. }
+    all: injection Epre as <- <-; split; congruence. }
+  assert (Hfin : forall D r1 (sc : list N) x r' (sc' : list N), Inv e D r1 ->
+            (r_state r1 = ProcNone \/ (exists a b c, r_state r1 = ProcPend a b c) \/ r_state r1 = Failed) ->
+            (match r_state r1 with
+             | Failed => (RErr E_INVALID, r1, sc)
+             | _ => let '(r2, y) := proc e b r1 in (y, r2, sc)
+             end) = (x, r', sc') -> res_ok e b D x r').
+  { intros D r1 sc x r' sc' HI1 [Hs|[Hs|Hs]].
+    - rewrite Hs. destruct (proc e b r1) as [r2 y] eqn:Ep. intros [= <- <- <-].
+      eapply proc_inv; try eassumption. left; assumption.
+    - destruct Hs as (a & b0 & c0 & Hs). rewrite Hs.
+      destruct (proc e b r1) as [r2 y] eqn:Ep. intros [= <- <- <-].
+      eapply proc_inv; try eassumption. right; eauto.
+    - rewrite Hs. intros [= <- <- <-]. unfold res_ok. split; [assumption|]. right. split; [reflexivity|assumption]. }
+  induction sc as [|s t IH]; intros D r x r' sc' HI; cbn [poll_go];
+    destruct (match r_state r with ReadFrameLen => step_len e r | _ => (r, None) end)
+      as [r1 res] eqn:Epre;
+    pose proof (Hpre D r r1 res HI Epre) as Hp;
+    (destruct res as [y|];
+     [intros [= <- <- <-]; destruct Hp as (-> & Hf & Hi); unfold res_ok;
+      split; [assumption|]; right; split; [reflexivity|assumption]|]);
+    destruct Hp as [HI1 Hns].
+  - destruct (r_state r1) eqn:Es1.
+    + destruct (readdata_bounds e D r1 _ W HI1 Es1) as [Hb1 Hb2].
+      destruct ((max_read <? r_nread r1) || (rbuf_len (e_cfg e) <? max_read)) eqn:Ep; [lia|].
+      intros [= <- <- <-]. unfold res_ok. split; [apply inv_set_lp; assumption|].
+      left. split; [left; reflexivity|]. destruct r1; rfields. eauto.
+    + congruence.
+    + intro H. eapply (Hfin D r1 [] x r' sc' HI1); [left; assumption|]. rewrite Es1. exact H.
+    + intro H. eapply (Hfin D r1 [] x r' sc' HI1); [right; left; eauto|]. rewrite Es1. exact H.
+    + intro H. eapply (Hfin D r1 [] x r' sc' HI1); [right; right; assumption|]. rewrite Es1. exact H.
+  - destruct (r_state r1) eqn:Es1.
+    + destruct (readdata_bounds e D r1 _ W HI1 Es1) as [Hb1 Hb2].
+      destruct ((max_read <? r_nread r1) || (rbuf_len (e_cfg e) <? max_read)) eqn:Ep; [lia|].
+      assert (Hrd : exists mr, r_state (set_lp r1 false) = ReadData mr)
+        by (destruct r1; rfields; eauto).
+      destruct (s =? 0) eqn:E0.
+      { intros [= <- <- <-]. unfold res_ok. apply inv_set_lp; assumption. }
+      destruct (s =? SPECIAL) eqn:E1.
+      { intros [= <- <- <-]. unfold res_ok. split; [apply inv_set_lp; assumption|].
+        left. split; [left; reflexivity|assumption]. }
+      destruct (SPECIAL <? s) eqn:E2.
+      { intros [= <- <- <-]. unfold res_ok. split; [apply inv_set_lp; assumption|].
+        left. split; [right; apply ecode_range|assumption]. }
+      set (k := N.min s (N.min (max_read - r_nread r1) (e_avail e - (r_wbase r1 + r_nread r1)))).
+      destruct (k =? 0) eqn:Ek.
+      { intros [= <- <- <-]. unfold res_ok. split; [apply inv_set_lp; assumption|].
+        left. split; [left; reflexivity|assumption]. }
+      intro Hrec. eapply IH; [|exact Hrec].
+      eapply read_inv; try eassumption; unfold k; lia.
+    + congruence.
+    + intro H. eapply (Hfin D r1 (s :: t) x r' sc' HI1); [left; assumption|]. rewrite Es1. exact H.
+    + intro H. eapply (Hfin D r1 (s :: t) x r' sc' HI1); [right; left; eauto|]. rewrite Es1. exact H.
+    + intro H. eapply (Hfin D r1 (s :: t) x r' sc' HI1); [right; right; assumption|]. rewrite Es1. exact H.
+Qed.
+
 Lemma poll_inv e b : wf_env e -> forall sc D r x r' sc',
   Inv e D r -> poll_read e b sc r = (x, r', sc') -> res_ok e b D x r'.
 Proof.
-  intros W. induction sc as [|s t IH]; intros D r x r' sc' HI.
-  - cbn [poll_read].
-    destruct (match r_state r with ReadFrameLen => step_len e r | _ => (r, None) end)
-      as [r1 res] eqn:Epre.
-    assert (Hpre : match res with
-                   | None => Inv e D r1 /\ r_state r1 <> ReadFrameLen
-                   | Some y => y = RErr E_INVALID /\
-                       exists it, nthI (e_items e) (r_ctr r1) = Some it /\
-                                  item_good (e_cfg e) it (r_ctr r1) = false
-                   end).
-    { destruct (r_state r) eqn:Es.
-      2:{ pose proof (step_len_inv e D r r1 res W HI Es Epre) as H.
-          destruct res; [exact H|]. destruct H as [H1 [H2|[mr H2]]]; split; congruence. }
-      all: injection Epre as <- <-; split; congruence. }
-    destruct res as [y|].
-    + intros [= <- <- <-]. destruct Hpre as [-> Hbad]. unfold res_ok. right. split; [reflexivity|exact Hbad].
-    + destruct Hpre as [HI1 Hns].
-      destruct (r_state r1) eqn:Es1.
-      * destruct (readdata_bounds e D r1 _ W HI1 Es1) as [Hb1 Hb2].
-        destruct ((max_read <? r_nread r1) || (rbuf_len (e_cfg e) <? max_read)) eqn:Ep; [lia|].
-        intros [= <- <- <-]. unfold res_ok. left. split; [reflexivity|]. split; [assumption|eauto].
-      * congruence.
-      * destruct (proc e b r1) as [r2 y] eqn:Ep. intros [= <- <- <-].
-        eapply proc_inv; try eassumption. left; assumption.
-      * destruct (proc e b r1) as [r2 y] eqn:Ep. intros [= <- <- <-].
-        eapply proc_inv; try eassumption. right; eauto.
-  - cbn [poll_read].
-    destruct (match r_state r with ReadFrameLen => step_len e r | _ => (r, None) end)
-      as [r1 res] eqn:Epre.
-    assert (Hpre : match res with
-                   | None => Inv e D r1 /\ r_state r1 <> ReadFrameLen
-                   | Some y => y = RErr E_INVALID /\
-                       exists it, nthI (e_items e) (r_ctr r1) = Some it /\
-                                  item_good (e_cfg e) it (r_ctr r1) = false
-                   end).
-    { destruct (r_state r) eqn:Es.
-      2:{ pose proof (step_len_inv e D r r1 res W HI Es Epre) as H.
-          destruct res; [exact H|]. destruct H as [H1 [H2|[mr H2]]]; split; congruence. }
-      all: injection Epre as <- <-; split; congruence. }
-    destruct res as [y|].
-    + intros [= <- <- <-]. destruct Hpre as [-> Hbad]. unfold res_ok. right. split; [reflexivity|exact Hbad].
-    + destruct Hpre as [HI1 Hns].
-      destruct (r_state r1) eqn:Es1.
-      * destruct (readdata_bounds e D r1 _ W HI1 Es1) as [Hb1 Hb2].
-        destruct ((max_read <? r_nread r1) || (rbuf_len (e_cfg e) <? max_read)) eqn:Ep; [lia|].
-        destruct (s =? 0) eqn:E0.
-        -- intros [= <- <- <-]. unfold res_ok. assumption.
-        -- set (k := N.min s (N.min (max_read - r_nread r1) (e_avail e - (r_wbase r1 + r_nread r1)))).
-           destruct (k =? 0) eqn:Ek.
-           ++ intros [= <- <- <-]. unfold res_ok. left. split; [reflexivity|]. split; [assumption|eauto].
-           ++ intro Hrec. eapply IH; [|exact Hrec].
-              eapply read_inv; try eassumption; unfold k; lia.
-      * congruence.
-      * destruct (proc e b r1) as [r2 y] eqn:Ep. intros [= <- <- <-].
-        eapply proc_inv; try eassumption. left; assumption.
-      * destruct (proc e b r1) as [r2 y] eqn:Ep. intros [= <- <- <-].
-        eapply proc_inv; try eassumption. right; eauto.
+  intros W sc D r x r' sc' HI H. unfold poll_read in H.
+  eapply poll_go_inv; [exact W | apply inv_set_lp; exact HI | exact H].
 Qed.
 
 (* ------------------------------------------------------------------ whole reader runs *)
 
-Definition bad_at (e : renv) (k : N) : Prop :=
-  exists it, nthI (e_items e) k = Some it /\ item_good (e_cfg e) it k = false.
-
-(* judgement on the trace of a reader run that starts with D bytes delivered *)
+(* judgement on the trace of a reader run that starts with D bytes delivered; the socket is
+   polled on after errors *)
 Fixpoint run_ok (e : renv) (D : N) (bufs : list N) (tr : list (rres * reader)) {struct tr} : Prop :=
   match tr, bufs with
   | [], _ => True
   | (x, r') :: t, b :: bt =>
       match x with
-      | RReady n pos => pos = D /\ n <= b /\ (1 <= b -> 1 <= n) /\ run_ok e (D + n) bt t
-      | RPending => run_ok e D bt t
+      | RReady n pos =>
+          pos = D /\ n <= b /\ (1 <= b -> 1 <= n) /\ Inv e (D + n) r' /\ run_ok e (D + n) bt t
+      | RPending => Inv e D r' /\ run_ok e D bt t
       | RErr err =>
-          t = [] /\
-          ((err = E_EOF /\ Inv e D r' /\ exists mr, r_state r' = ReadData mr) \/
-           (err = E_INVALID /\ bad_at e (r_ctr r')))
+          Inv e D r' /\
+          ((carrier_err err /\ exists mr, r_state r' = ReadData mr) \/
+           (err = E_INVALID /\ r_state r' = Failed)) /\
+          run_ok e D bt t
       | RPanic => False
       end
   | _ :: _, [] => False
@@ -422,9 +450,10 @@ Proof.
   destruct (poll_read e b sc r) as [[x r'] sc'] eqn:Ep.
   pose proof (poll_inv e b W sc D r x r' sc' HI Ep) as H.
   cbn [run_ok]. destruct x as [n pos| |err|]; cbn [is_final res_ok] in *.
-  - destruct H as (H1 & H2 & H3 & H4). repeat split; try assumption. apply IH. exact H4.
-  - apply IH. exact H.
-  - split; [reflexivity|]. exact H.
+  - destruct H as (H1 & H2 & H3 & H4).
+    split; [exact H1|]. split; [exact H2|]. split; [exact H3|]. split; [exact H4|]. apply IH. exact H4.
+  - split; [exact H|]. apply IH. exact H.
+  - destruct H as [H1 H2]. split; [exact H1|]. split; [exact H2|]. apply IH. exact H1.
   - exact H.
 Qed.
 
@@ -436,7 +465,7 @@ Fixpoint pieces_ok (D : N) (bufs : list N) (tr : list (rres * reader)) {struct t
       match x with
       | RReady n pos => pos = D /\ n <= b /\ (1 <= b -> 1 <= n) /\ pieces_ok (D + n) bt t
       | RPending => pieces_ok D bt t
-      | RErr err => t = [] /\ (err = E_EOF \/ err = E_INVALID)
+      | RErr err => (carrier_err err \/ err = E_INVALID) /\ pieces_ok D bt t
       | RPanic => False
       end
   | _ :: _, [] => False
@@ -447,14 +476,129 @@ Proof.
   induction tr as [|[x r'] t IH]; intros D bufs; cbn [run_ok pieces_ok]; [trivial|].
   destruct bufs as [|b bt]; [trivial|].
   destruct x as [n pos| |err|]; try tauto.
-  - intros (H1 & H2 & H3 & H4). repeat split; auto.
-  - apply IH.
+  - intros (H1 & H2 & H3 & _ & H4). repeat split; auto.
+  - intros [_ H]. apply IH. exact H.
+  - intros (H1 & H2 & H3). split; [tauto | apply IH; exact H3].
 Qed.
 
 Theorem read_exact e : wf_env e -> forall bufs sc,
   pieces_ok 0 bufs (run_reader e bufs sc (reader_init (e_cfg e))).
 Proof.
   intros W bufs sc. eapply run_ok_pieces, run_ok_holds; [exact W|]. apply init_inv, W.
+Qed.
+
+(* ------------------------------------------------------------------ fail-stop *)
+
+Definition is_invalid (x : rres) : bool :=
+  match x with RErr e => e =? E_INVALID | _ => false end.
+
+(* once InvalidData was reported, every later poll reports InvalidData (and so delivers nothing) *)
+Fixpoint fail_stop (failed : bool) (tr : list (rres * reader)) : Prop :=
+  match tr with
+  | [] => True
+  | (x, _) :: t => (failed = true -> x = RErr E_INVALID) /\ fail_stop (failed || is_invalid x) t
+  end.
+
+Lemma step_len_invalid e r r1 y : step_len e r = (r1, Some y) ->
+  y = RErr E_INVALID -> r_state r1 = Failed.
+Proof.
+  unfold step_len.
+  destruct (r_nread r <? r_offset r); [intros [= <- <-]; discriminate|].
+  destruct (r_nread r - r_offset r <? 2); [discriminate|].
+  destruct (r_cfs r) as [fs|].
+  - cbv beta iota zeta.
+    destruct (r_nread r - r_offset r <? fs).
+    + destruct (r_nread r + fs <? cmax (e_cfg e)); discriminate.
+    + destruct (fs <=? TAG); [intros [= <- <-]; reflexivity | discriminate].
+  - destruct (hdr_at (e_items e) (r_wbase r + r_offset r)) as [fs|]; cbv beta iota zeta.
+    + destruct (r_nread r - r_offset r - 2 <? fs).
+      * destruct (r_nread r + fs <? cmax (e_cfg e)); discriminate.
+      * destruct (fs <=? TAG); [intros [= <- <-]; reflexivity | discriminate].
+    + intros [= <- <-]; discriminate.
+Qed.
+
+Lemma proc_invalid e b r r2 : proc e b r = (r2, RErr E_INVALID) -> r_state r2 = Failed.
+Proof.
+  unfold proc. destruct (r_state r) as [mr| | |poff psize pfs|]; try discriminate.
+  - destruct (r_cfs r) as [fs|]; [|discriminate].
+    destruct (fs <? TAG); [discriminate|].
+    destruct (rbuf_len (e_cfg e) <? r_offset r + fs); [discriminate|].
+    destruct (r_nread r <? r_offset r + fs); [discriminate|].
+    destruct (SNOW_MAX <? fs); [intros [= <-]; reflexivity|].
+    destruct (body_ok (e_items e) (r_ctr r) (r_wbase r + r_offset r) fs).
+    + destruct (fs - TAG <=? b); [discriminate|].
+      destruct (c_mfl (e_cfg e) <? fs - TAG); [intros [= <-]; reflexivity | discriminate].
+    + destruct (fs - TAG <=? b); [intros [= <-]; reflexivity|].
+      destruct (c_mfl (e_cfg e) <? fs - TAG); intros [= <-]; reflexivity.
+  - destruct (psize <? poff); [discriminate|].
+    destruct (psize - poff <=? b); discriminate.
+Qed.
+
+Lemma ecode_not_invalid k : ecode k <> E_INVALID.
+Proof. pose proof (ecode_range k). unfold E_INVALID. lia. Qed.
+
+Lemma poll_go_invalid e b : forall sc r r' sc',
+  poll_go e b sc r = (RErr E_INVALID, r', sc') -> r_state r' = Failed.
+Proof.
+  induction sc as [|s t IH]; intros r r' sc'; cbn [poll_go];
+    destruct (match r_state r with ReadFrameLen => step_len e r | _ => (r, None) end)
+      as [r1 res] eqn:Epre;
+    (destruct res as [y|];
+     [intros [= -> <- <-]; destruct (r_state r) eqn:Es; try discriminate;
+      eapply step_len_invalid; [exact Epre|reflexivity]|]).
+  - destruct (r_state r1) eqn:Es1.
+    + destruct ((max_read <? r_nread r1) || (rbuf_len (e_cfg e) <? max_read)); discriminate.
+    + discriminate.
+    + destruct (proc e b r1) as [r2 y] eqn:Ep. intros [= -> <- <-]. eapply proc_invalid; exact Ep.
+    + destruct (proc e b r1) as [r2 y] eqn:Ep. intros [= -> <- <-]. eapply proc_invalid; exact Ep.
+    + intros [= <- <-]. assumption.
+  - destruct (r_state r1) eqn:Es1.
+    + destruct ((max_read <? r_nread r1) || (rbuf_len (e_cfg e) <? max_read)); [discriminate|].
+      destruct (s =? 0); [discriminate|].
+      destruct (s =? SPECIAL); [discriminate|].
+      destruct (SPECIAL <? s); [intros [= H _ _]; exfalso; exact (ecode_not_invalid _ H)|].
+      destruct (N.min s (N.min (max_read - r_nread r1) (e_avail e - (r_wbase r1 + r_nread r1))) =? 0);
+        [discriminate|]. apply IH.
+    + discriminate.
+    + destruct (proc e b r1) as [r2 y] eqn:Ep. intros [= -> <- <-]. eapply proc_invalid; exact Ep.
+    + destruct (proc e b r1) as [r2 y] eqn:Ep. intros [= -> <- <-]. eapply proc_invalid; exact Ep.
+    + intros [= <- <-]. assumption.
+Qed.
+
+Lemma poll_failed e b sc r : r_state r = Failed ->
+  poll_read e b sc r = (RErr E_INVALID, set_lp r false, sc).
+Proof.
+  intro Hs. unfold poll_read.
+  assert (Hs' : r_state (set_lp r false) = Failed) by (destruct r; exact Hs).
+  destruct sc; cbn [poll_go]; rewrite Hs'; cbn beta iota; rewrite Hs'; reflexivity.
+Qed.
+
+Theorem reader_fail_stop e : forall bufs sc r,
+  fail_stop (match r_state r with Failed => true | _ => false end) (run_reader e bufs sc r).
+Proof.
+  induction bufs as [|b bt IH]; intros sc r; cbn [run_reader fail_stop]; [exact I|].
+  destruct (poll_read e b sc r) as [[x r'] sc'] eqn:Ep. cbn [fail_stop].
+  assert (Hx : is_invalid x = true -> r_state r' = Failed).
+  { destruct x as [n pos| |err|]; cbn [is_invalid]; try discriminate.
+    intro He. assert (err = E_INVALID) by lia. subst err.
+    unfold poll_read in Ep. eapply poll_go_invalid; exact Ep. }
+  destruct (r_state r) eqn:Es.
+  5:{ rewrite (poll_failed e b sc r Es) in Ep. injection Ep as <- <- <-.
+      split; [reflexivity|]. cbn [is_final orb].
+      specialize (IH sc (set_lp r false)).
+      replace (r_state (set_lp r false)) with Failed in IH by (destruct r; symmetry; exact Es).
+      exact IH. }
+  all: split; [discriminate|]; cbn [orb];
+    destruct (is_final x); [destruct (is_invalid x); exact I|];
+    specialize (IH sc' r');
+    destruct (is_invalid x) eqn:Ei;
+      [rewrite (Hx eq_refl) in IH; exact IH|];
+    destruct (r_state r'); try exact IH;
+    (* a Failed state without a reported InvalidData: still fine, the later polls all fail *)
+    clear -IH; revert IH; generalize (run_reader e bt sc' r'); intro l;
+    induction l as [|[y q] l IHl]; cbn [fail_stop]; [trivial|];
+    intros [H1 H2]; split; [discriminate|]; rewrite (H1 eq_refl) in *; cbn [is_invalid orb] in *;
+    replace (E_INVALID =? E_INVALID) with true in * by reflexivity; cbn [orb]; exact H2.
 Qed.
 
 (* ------------------------------------------------------------------ the honest wire *)
@@ -525,7 +669,7 @@ Lemma eof_complete c plains D r mr : 1 <= c_factor c -> c_mfl c + TAG <= SNOW_MA
   r_wbase r + r_nread r = wire_len (honest plains) -> D = sum plains.
 Proof.
   intros Hf Hm Hp HI Hs Hall.
-  destruct r as [st nread offset cfs wbase ctr pbase]. cbn [r_state] in Hs. subst st.
+  destruct r as [st nread offset cfs wbase ctr pbase lp]. cbn [r_state] in Hs. subst st.
   unfold Inv in HI. rfields. cbn [e_cfg e_items e_plains e_avail honest_env] in HI.
   destruct cfs as [fs|].
   - destruct HI as (_ & Hcur & (it & Hit & Hh) & HD & Hon & Hlt & HoM & Hmr & Hins).
@@ -547,45 +691,65 @@ Fixpoint delivered (tr : list (rres * reader)) : N :=
   | _ :: t => delivered t
   end.
 
+Lemma pstart_le_sum l : forall k, pstart l k <= sum l.
+Proof.
+  induction l as [|x t IH]; cbn [pstart sum]; intro k; [lia|].
+  destruct (k =? 0); [lia | specialize (IH (k - 1)); lia].
+Qed.
+
+Lemma inv_D_le e D r : Inv e D r -> D <= pstart (e_plains e) (r_ctr r).
+Proof.
+  destruct r as [st nread offset cfs wbase ctr pbase lp]. unfold Inv. rfields.
+  destruct st, cfs; intros H; try tauto; decompose [and] H; lia.
+Qed.
+
+(* judgement on a run over the untampered wire of W bytes carrying `total` plaintext bytes, D
+   delivered so far: InvalidData never; never more than was written; whenever the carrier reports
+   EOF after the whole wire was pulled, everything has been delivered *)
+Fixpoint honest_ok (W total D : N) (tr : list (rres * reader)) : Prop :=
+  match tr with
+  | [] => True
+  | (x, r') :: t =>
+      match x with
+      | RReady n _ => D + n <= total /\ honest_ok W total (D + n) t
+      | RErr err =>
+          err <> E_INVALID /\
+          (err = E_EOF -> r_wbase r' + r_nread r' = W -> D = total) /\
+          honest_ok W total D t
+      | _ => honest_ok W total D t
+      end
+  end.
+
 Lemma run_ok_honest c plains : 1 <= c_factor c -> c_mfl c + TAG <= SNOW_MAX -> plains_ok c plains ->
   forall tr D bufs, run_ok (honest_env c plains) D bufs tr ->
-  (forall x r', In (x, r') tr -> x <> RErr E_INVALID) /\
-  (forall r', In (RErr E_EOF, r') tr -> r_wbase r' + r_nread r' = wire_len (honest plains) ->
-              D + delivered tr = sum plains).
+  honest_ok (wire_len (honest plains)) (sum plains) D tr.
 Proof.
-  intros Hf Hm Hp. induction tr as [|[x r1] t IH]; intros D bufs H.
-  - split; intros; contradiction.
-  - cbn [run_ok] in H. destruct bufs as [|b bt]; [contradiction|].
-    destruct x as [n pos| |err|]; try contradiction.
-    + destruct H as (_ & _ & _ & H). destruct (IH _ _ H) as [I1 I2]. split.
-      * intros x r' [[= <- <-]|Hin]; [discriminate | eauto].
-      * intros r' [[=]|Hin] Hall. cbn [delivered]. specialize (I2 _ Hin Hall). lia.
-    + destruct (IH _ _ H) as [I1 I2]. split.
-      * intros x r' [[= <- <-]|Hin]; [discriminate | eauto].
-      * intros r' [[=]|Hin] Hall. cbn [delivered]. eauto.
-    + destruct H as [-> [(-> & HI & mr & Hs)|(-> & it & Hit & Hbad)]].
-      * split.
-        -- intros x r' [[= <- <-]|[]]. discriminate.
-        -- intros r' [[= <-]|[]] Hall. cbn [delivered].
-           rewrite (eof_complete c plains D r1 mr Hf Hm Hp HI Hs Hall). lia.
-      * cbn [e_items e_cfg honest_env] in *. rewrite (honest_good c plains _ _ Hp Hit) in Hbad. discriminate.
+  intros Hf Hm Hp. induction tr as [|[x r1] t IH]; intros D bufs H; [exact I|].
+  cbn [run_ok] in H. destruct bufs as [|b bt]; [contradiction|]. cbn [honest_ok].
+  destruct x as [n pos| |err|]; try contradiction.
+  - destruct H as (_ & _ & _ & HI & H). split; [|eapply IH; exact H].
+    pose proof (inv_D_le _ _ _ HI) as H1. cbn [e_plains honest_env] in H1.
+    pose proof (pstart_le_sum plains (r_ctr r1)). lia.
+  - destruct H as [_ H]. eapply IH; exact H.
+  - destruct H as (HI & Hc & H). split; [|split; [|eapply IH; exact H]].
+    + destruct Hc as [[Hc _]|[-> Hs]].
+      * unfold carrier_err, E_EOF, E_INVALID in *. lia.
+      * exfalso. unfold Inv in HI. rewrite Hs in HI. destruct HI as (_ & (it & Hit & Hbad) & _).
+        cbn [e_items e_cfg honest_env] in *. rewrite (honest_good c plains _ _ Hp Hit) in Hbad. discriminate.
+    + intros -> Hall. destruct Hc as [[_ [mr Hs]]|[Hc _]]; [|discriminate].
+      exact (eof_complete c plains D r1 mr Hf Hm Hp HI Hs Hall).
 Qed.
 
 Theorem read_honest c plains : 1 <= c_factor c -> c_mfl c + TAG <= SNOW_MAX -> plains_ok c plains ->
   forall bufs sc,
   let tr := run_reader (honest_env c plains) bufs sc (reader_init c) in
-  pieces_ok 0 bufs tr /\
-  (forall x r', In (x, r') tr -> x <> RErr E_INVALID) /\
-  (forall r', In (RErr E_EOF, r') tr -> r_wbase r' + r_nread r' = wire_len (honest plains) ->
-              delivered tr = sum plains).
+  pieces_ok 0 bufs tr /\ honest_ok (wire_len (honest plains)) (sum plains) 0 tr.
 Proof.
   intros Hf Hm Hp bufs sc tr.
   pose proof (honest_wf c plains Hf Hm Hp) as W.
   assert (H : run_ok (honest_env c plains) 0 bufs tr).
   { apply run_ok_holds; [exact W|]. apply (init_inv (honest_env c plains) W). }
-  destruct (run_ok_honest c plains Hf Hm Hp tr 0 bufs H) as [I1 I2].
-  split; [eapply run_ok_pieces; exact H|]. split; [exact I1|].
-  intros r' Hin Hall. specialize (I2 r' Hin Hall). lia.
+  split; [eapply run_ok_pieces; exact H|]. eapply run_ok_honest; eassumption.
 Qed.
 
 (* ------------------------------------------------------------------ writer *)
@@ -600,6 +764,8 @@ Definition WInv (c : cfg) (w : writer) : Prop :=
       off < elen /\ elen <= ebuf_len c /\ frames_wire (w_frames w) = w_sent w + (elen - off)
   end.
 
+Ltac wfields := cbn [w_state w_frames w_sent w_cclosed w_lp] in *.
+
 Lemma sum_app a b : sum (a ++ b) = sum a + sum b.
 Proof. induction a as [|x t IH]; cbn [app sum]; [lia | rewrite IH; lia]. Qed.
 
@@ -609,20 +775,59 @@ Proof. induction a as [|x t IH]; cbn [app frames_wire]; [lia | rewrite IH; lia].
 Lemma frames_wire_ge l : sum l <= frames_wire l.
 Proof. induction l as [|x t IH]; cbn [sum frames_wire]; lia. Qed.
 
-Lemma drain_spec eb : forall sc off elen sent res off' sent' sc', off < elen -> elen <= eb ->
-  drain eb sc off elen sent = (res, off', sent', sc') ->
+Definition derr_ok (res : drain_res) : Prop :=
+  match res with DErr e => e <> E_INVALID | _ => True end.
+
+Lemma drain_spec eb closed : forall sc off elen sent res off' sent' sc', off < elen -> elen <= eb ->
+  drain eb closed sc off elen sent = (res, off', sent', sc') ->
   res <> DPanic /\ off <= off' /\ sent' = sent + (off' - off) /\
-  (res = DDone -> off' = elen) /\ (res = DPend -> off' < elen).
+  (res = DDone -> off' = elen) /\ (res <> DDone -> off' < elen) /\ derr_ok res /\
+  (closed = true -> sent' = sent /\ res = DErr E_BROKENPIPE).
 Proof.
   induction sc as [|x t IH]; intros off elen sent res off' sent' sc' H1 H2; cbn [drain];
-    (destruct ((elen <? off) || (eb <? elen)) eqn:Ep; [lia|]).
-  - intros [= <- <- <- <-]. repeat split; try lia; congruence.
+    (destruct ((elen <? off) || (eb <? elen)) eqn:Ep; [lia|]);
+    (destruct closed;
+     [intros [= <- <- <- <-]; cbn [derr_ok]; unfold E_BROKENPIPE, E_INVALID;
+      repeat split; try lia; try congruence|]).
+  - intros [= <- <- <- <-]. cbn [derr_ok]. repeat split; try lia; try congruence.
   - destruct (x =? 0) eqn:E0.
-    + intros [= <- <- <- <-]. repeat split; try lia; congruence.
-    + destruct (off + N.min x (elen - off) =? elen) eqn:E1.
-      * intros [= <- <- <- <-]. repeat split; try lia; congruence.
-      * intro H. apply IH in H; try lia. destruct H as (A & B & C & D1 & D2).
-        repeat split; try assumption; try lia.
+    { intros [= <- <- <- <-]. cbn [derr_ok]. repeat split; try lia; try congruence. }
+    destruct (x =? SPECIAL) eqn:E1.
+    { intros [= <- <- <- <-]. cbn [derr_ok]. unfold E_WRITEZERO, E_INVALID.
+      repeat split; try lia; try congruence. }
+    destruct (SPECIAL <? x) eqn:E2.
+    { intros [= <- <- <- <-]. cbn [derr_ok]. pose proof (ecode_range (x - SPECIAL)). unfold E_INVALID.
+      repeat split; try lia; try congruence. }
+    destruct (off + N.min x (elen - off) =? elen) eqn:E3.
+    + intros [= <- <- <- <-]. cbn [derr_ok]. repeat split; try lia; try congruence.
+    + intro H. apply IH in H; try lia. destruct H as (A & B & C & D1 & D2 & D3 & D4).
+      repeat split; try assumption; try lia; try congruence.
+Qed.
+
+(* the shared first step: drain what is buffered *)
+Lemma wpre_spec c sc w dres st1 sent1 sc1 : WInv c w -> wpre c sc w = (dres, st1, sent1, sc1) ->
+  dres <> DPanic /\ derr_ok dres /\
+  (forall cl l, WInv c (mkW st1 (w_frames w) sent1 cl l)) /\
+  (dres = DDone -> st1 = WIdle) /\
+  (dres <> DDone -> exists off elen, st1 = Writing off elen) /\
+  (w_cclosed w = true -> sent1 = w_sent w) /\
+  (w_cclosed w = true -> (exists off elen, w_state w = Writing off elen) -> dres = DErr E_BROKENPIPE) /\
+  (w_state w = WIdle -> dres = DDone).
+Proof.
+  intros [HF HS]. unfold wpre. destruct (w_state w) as [|off elen] eqn:Es.
+  - intros [= <- <- <- <-]. cbn [derr_ok].
+    repeat split; try congruence; try assumption.
+    + intros _ (o & l & H). discriminate.
+  - destruct HS as (A & B & C).
+    destruct (drain (ebuf_len c) (w_cclosed w) sc off elen (w_sent w)) as [[[res off'] s] sc0] eqn:Ed.
+    destruct (drain_spec _ _ _ _ _ _ _ _ _ _ A B Ed) as (P1 & P2 & P3 & P4 & P5 & P6 & P7).
+    assert (Hne : res <> DDone -> off' < elen) by exact P5.
+    destruct res as [| |e|]; intros [= <- <- <- <-]; try congruence;
+      [specialize (P4 eq_refl) | specialize (Hne ltac:(congruence)) | specialize (Hne ltac:(congruence))];
+      (repeat split; try congruence; try assumption; wfields; try lia;
+       try (intros _; eauto; fail);
+       try (intro Hc; destruct (P7 Hc); lia);
+       try (intros Hc _; destruct (P7 Hc); congruence)).
 Qed.
 
 Lemma pack_spec c : 1 <= c_mfl c -> c_mfl c + TAG <= SNOW_MAX -> forall fuel rest bo,
@@ -657,66 +862,75 @@ Proof.
   intros [= <- <- <-]. lia.
 Qed.
 
+(* what one writer call guarantees, whatever the carrier does:
+   the invariant; the carrier's closed flag only changes by a completed close; nothing reaches a
+   closed carrier; Ready n: n bytes (at most len) were framed; Pending: nothing was accepted and the
+   last carrier call returned Pending (waker registered); an error: nothing was accepted and it is
+   not InvalidData (the socket never fails by itself); never a panic *)
 Definition wres_ok (c : cfg) (len : N) (w : writer) (x : wres) (w' : writer) : Prop :=
   WInv c w' /\
+  (w_cclosed w = true -> w_sent w' = w_sent w) /\
   match x with
   | WReady n => n <= len /\ sum (w_frames w') = sum (w_frames w) + n
-  | WPending => w_frames w' = w_frames w
-  | _ => False
+  | WPending => w_frames w' = w_frames w /\ w_lp w' = true
+  | WErr e => w_frames w' = w_frames w /\ e <> E_INVALID
+  | WPanic => False
   end.
 
-Lemma poll_write_ok c len sc w x w' sc' : 1 <= c_mfl c -> c_mfl c + TAG <= SNOW_MAX ->
-  WInv c w -> poll_write c len sc w = (x, w', sc') -> wres_ok c len w x w'.
+Lemma poll_write_ok c len sc w x w' sc' :
+  1 <= c_mfl c -> c_mfl c + TAG <= SNOW_MAX -> 1 <= c_wbuf c ->
+  WInv c w -> poll_write c len sc w = (x, w', sc') ->
+  wres_ok c len w x w' /\ w_cclosed w' = w_cclosed w.
 Proof.
-  intros H1 H2 [HF HS]. unfold poll_write.
-  set (d := match w_state w with
-            | WIdle => (DDone, WIdle, w_sent w, sc)
-            | Writing off elen =>
-                match drain (ebuf_len c) sc off elen (w_sent w) with
-                | (DDone, _, s, sc'0) => (DDone, WIdle, s, sc'0)
-                | (DPend, off', s, sc'0) => (DPend, Writing off' elen, s, sc'0)
-                | (DPanic, off', s, sc'0) => (DPanic, Writing off' elen, s, sc'0)
-                end
-            end).
-  assert (Hd : exists dres st1 sent1 sc1, d = (dres, st1, sent1, sc1) /\ dres <> DPanic /\
-               WInv c (mkW st1 (w_frames w) sent1)).
-  { subst d. destruct (w_state w) as [|off elen] eqn:Es.
-    - exists DDone, WIdle, (w_sent w), sc. split; [reflexivity|]. split; [discriminate|].
-      split; assumption.
-    - destruct HS as (A & B & C).
-      destruct (drain (ebuf_len c) sc off elen (w_sent w)) as [[[res off'] s] sc0] eqn:Ed.
-      destruct (drain_spec _ _ _ _ _ _ _ _ _ A B Ed) as (P1 & P2 & P3 & P4 & P5).
-      destruct res; [| |congruence].
-      + exists DDone, WIdle, s, sc0. split; [reflexivity|]. split; [discriminate|].
-        split; [assumption|]. cbn [w_state w_frames w_sent]. specialize (P4 eq_refl). lia.
-      + exists DPend, (Writing off' elen), s, sc0. split; [reflexivity|]. split; [discriminate|].
-        split; [assumption|]. cbn [w_state w_frames w_sent]. specialize (P5 eq_refl). lia. }
-  destruct Hd as (dres & st1 & sent1 & sc1 & -> & Hnp & [HF1 HS1]).
-  cbn [w_frames w_state w_sent] in HF1, HS1.
-  destruct dres; [| |congruence].
-  all: destruct (len =? 0) eqn:E0;
-    [intros [= <- <- <-]; split; [split; assumption|]; cbn [w_frames]; lia|].
-  all: destruct (c_mfl c =? 0) eqn:Em; [lia|].
-  all: destruct (pack_spec c H1 H2 (chunk_count c len) len
-                   match st1 with WIdle => 0 | Writing _ elen => elen end)
-         as (bo' & tot & fr & -> & Hb & Ht & Hle & Hfr & Hfit).
-  all: destruct (tot =? 0) eqn:Et;
-    [intros [= <- <- <-]; split; [split; assumption|]; reflexivity|].
-  all: intros [= <- <- <-]; split;
-    [split; cbn [w_frames w_state w_sent];
-       [apply Forall_app; split; assumption|]
-    | cbn [w_frames]; rewrite sum_app; lia].
-  all: pose proof (frames_wire_ge fr) as Hge.
-  all: rewrite frames_wire_app; destruct st1 as [|off elen].
-  all: try (destruct HS1 as (A & B & C); specialize (Hfit B); lia).
-  all: assert (0 <= ebuf_len c) as B by lia; specialize (Hfit B); lia.
+  intros H1 H2 H3 HI. unfold poll_write.
+  destruct (wpre c sc w) as [[[dres st1] sent1] sc1] eqn:Ed.
+  destruct (wpre_spec c sc w dres st1 sent1 sc1 HI Ed) as (P1 & P2 & P3 & P4 & P5 & P6 & P7 & P8).
+  unfold wres_ok.
+  destruct dres as [| |e|]; try congruence.
+  - (* drained *)
+    specialize (P4 eq_refl). subst st1.
+    destruct (len =? 0) eqn:E0.
+    { intros [= <- <- <-]. wfields. split; [split; [apply P3|split; [exact P6|split; lia]]|reflexivity]. }
+    destruct (c_mfl c =? 0) eqn:Em; [lia|].
+    destruct (pack c (chunk_count c len) len 0) as [[[bo' tot] fr]|] eqn:Ep.
+    2:{ destruct (pack_spec c H1 H2 (chunk_count c len) len 0) as (a & b & d & He & _). congruence. }
+    pose proof (pack_progress c _ len H1 H2 H3 ltac:(lia) _ _ _ Ep) as Hprog.
+    destruct (pack_spec c H1 H2 (chunk_count c len) len 0) as (a & b & d & He & Hb & Ht & Hle & Hfr & Hfit).
+    rewrite Ep in He. injection He as <- <- <-.
+    destruct (tot =? 0) eqn:Et; [lia|].
+    intros [= <- <- <-]. wfields.
+    destruct (P3 false false) as [HF HS]. wfields.
+    pose proof (frames_wire_ge fr).
+    split; [|reflexivity]. split; [split|split].
+    + wfields. apply Forall_app; split; assumption.
+    + wfields. rewrite frames_wire_app. assert (0 <= ebuf_len c) by lia. lia.
+    + assumption.
+    + rewrite sum_app. lia.
+  - (* carrier busy *)
+    destruct (P5 ltac:(congruence)) as (off & elen & ->).
+    destruct (len =? 0) eqn:E0.
+    { intros [= <- <- <-]. wfields. split; [split; [apply P3|split; [exact P6|split; lia]]|reflexivity]. }
+    destruct (c_mfl c =? 0) eqn:Em; [lia|].
+    destruct (pack_spec c H1 H2 (chunk_count c len) len elen) as (bo' & tot & fr & -> & Hb & Ht & Hle & Hfr & Hfit).
+    destruct (P3 false false) as [HF HS]. wfields. destruct HS as (A & B & C).
+    destruct (tot =? 0) eqn:Et.
+    { intros [= <- <- <-]. wfields. split; [split; [apply P3|split; [exact P6|split; reflexivity]]|reflexivity]. }
+    intros [= <- <- <-]. wfields. pose proof (frames_wire_ge fr).
+    split; [|reflexivity]. split; [split|split].
+    + wfields. apply Forall_app; split; assumption.
+    + wfields. rewrite frames_wire_app. specialize (Hfit B). lia.
+    + assumption.
+    + rewrite sum_app. lia.
+  - (* carrier error *)
+    intros [= <- <- <-]. wfields. cbn [derr_ok] in P2.
+    split; [split; [apply P3|split; [exact P6|split; [reflexivity|assumption]]]|reflexivity].
 Qed.
 
 Lemma poll_write_progress c len sc w x w' sc' :
   1 <= c_mfl c -> c_mfl c + TAG <= SNOW_MAX -> 1 <= c_wbuf c -> 1 <= len ->
   w_state w = WIdle -> poll_write c len sc w = (x, w', sc') -> exists n, x = WReady n /\ 1 <= n.
 Proof.
-  intros H1 H2 H3 H4 Hs. unfold poll_write. rewrite Hs.
+  intros H1 H2 H3 H4 Hs. unfold poll_write, wpre. rewrite Hs.
   destruct (len =? 0) eqn:E0; [lia|].
   destruct (c_mfl c =? 0) eqn:Em; [lia|].
   unfold chunk_count.
@@ -727,48 +941,176 @@ Proof.
     congruence.
 Qed.
 
-Lemma poll_flush_ok c sc w x w' sc' : WInv c w -> poll_flush c sc w = (x, w', sc') ->
-  WInv c w' /\ w_frames w' = w_frames w /\
-  ((x = WReady 0 /\ w_state w' = WIdle /\ w_sent w' = frames_wire (w_frames w')) \/ x = WPending).
+Lemma carrier_ctl_spec closed sc r sc2 : carrier_ctl closed sc = (r, sc2) ->
+  match r with CErr e => e <> E_INVALID | _ => True end.
 Proof.
-  intros [HF HS]. unfold poll_flush. destruct (w_state w) as [|off elen] eqn:Es.
-  - intros [= <- <- <-]. split; [split; [assumption|rewrite Es; assumption]|].
-    split; [reflexivity|]. left. repeat split; [assumption | lia].
-  - destruct HS as (A & B & C).
-    destruct (drain (ebuf_len c) sc off elen (w_sent w)) as [[[res off'] s] sc0] eqn:Ed.
-    destruct (drain_spec _ _ _ _ _ _ _ _ _ A B Ed) as (P1 & P2 & P3 & P4 & P5).
-    destruct res; [| |congruence]; intros [= <- <- <-]; cbn [w_frames w_state w_sent].
-    + specialize (P4 eq_refl). split; [split; [assumption|cbn [w_state w_frames w_sent]; lia]|].
-      split; [reflexivity|]. left. repeat split. lia.
-    + specialize (P5 eq_refl). split; [split; [assumption|cbn [w_state w_frames w_sent]; lia]|].
-      split; [reflexivity|]. right. reflexivity.
+  unfold carrier_ctl. destruct closed; [intros [= <- <-]; exact I|].
+  destruct sc as [|x t]; [intros [= <- <-]; exact I|].
+  destruct (x =? 0); [intros [= <- <-]; exact I|].
+  destruct (SPECIAL <? x); intros [= <- <-]; [|exact I].
+  apply ecode_not_invalid.
 Qed.
 
-Theorem run_writer_ok c : 1 <= c_mfl c -> c_mfl c + TAG <= SNOW_MAX ->
+(* poll_flush: Ready means the encrypt buffer is empty and every frame is with the carrier *)
+Lemma poll_flush_ok c sc w x w' sc' : WInv c w -> poll_flush c sc w = (x, w', sc') ->
+  wres_ok c 0 w x w' /\ w_frames w' = w_frames w /\ w_cclosed w' = w_cclosed w /\
+  (forall n, x = WReady n -> n = 0 /\ w_state w' = WIdle /\ w_sent w' = frames_wire (w_frames w')).
+Proof.
+  intros HI. unfold poll_flush.
+  destruct (wpre c sc w) as [[[dres st1] sent1] sc1] eqn:Ed.
+  destruct (wpre_spec c sc w dres st1 sent1 sc1 HI Ed) as (P1 & P2 & P3 & P4 & P5 & P6 & P7 & P8).
+  unfold wres_ok.
+  destruct dres as [| |e|]; try congruence.
+  - specialize (P4 eq_refl). subst st1.
+    destruct (carrier_ctl (w_cclosed w) sc1) as [r sc2] eqn:Ec.
+    pose proof (carrier_ctl_spec _ _ _ _ Ec) as Hc.
+    destruct (P3 (w_cclosed w) false) as [HF HS]. wfields.
+    destruct r as [| |e]; intros [= <- <- <-]; wfields.
+    + split; [|split; [reflexivity|split; [reflexivity|]]].
+      * split; [apply P3|]. split; [assumption|]. lia.
+      * intros n [= <-]. repeat split. lia.
+    + split; [|split; [reflexivity|split; [reflexivity|]]].
+      * split; [apply P3|]. split; [assumption|]. split; reflexivity.
+      * intros n [=].
+    + split; [|split; [reflexivity|split; [reflexivity|]]].
+      * split; [apply P3|]. split; [assumption|]. split; [reflexivity|assumption].
+      * intros n [=].
+  - intros [= <- <- <-]. wfields. split; [|split; [reflexivity|split; [reflexivity|]]].
+    + split; [apply P3|]. split; [assumption|]. split; reflexivity.
+    + intros n [=].
+  - intros [= <- <- <-]. wfields. cbn [derr_ok] in P2. split; [|split; [reflexivity|split; [reflexivity|]]].
+    + split; [apply P3|]. split; [assumption|]. split; [reflexivity|assumption].
+    + intros n [=].
+Qed.
+
+(* poll_close: Ready means everything was flushed first and then the carrier was closed *)
+Lemma poll_close_ok c sc w x w' sc' : WInv c w -> poll_close c sc w = (x, w', sc') ->
+  wres_ok c 0 w x w' /\ w_frames w' = w_frames w /\
+  (w_cclosed w = true -> w_cclosed w' = true) /\
+  (forall n, x = WReady n ->
+     n = 0 /\ w_state w' = WIdle /\ w_sent w' = frames_wire (w_frames w') /\ w_cclosed w' = true) /\
+  (w_cclosed w' = true -> w_cclosed w = false -> exists n, x = WReady n).
+Proof.
+  intros HI. unfold poll_close.
+  destruct (poll_flush c sc w) as [[y w1] sc1] eqn:Ef.
+  destruct (poll_flush_ok c sc w y w1 sc1 HI Ef) as ((HW & Hcs & Hy) & Hfr & Hcl & Hrd).
+  destruct y as [n| |e|].
+  - destruct (Hrd n eq_refl) as (-> & Hst & Hsent).
+    destruct (carrier_ctl (w_cclosed w1) sc1) as [r sc2] eqn:Ec.
+    pose proof (carrier_ctl_spec _ _ _ _ Ec) as Hc.
+    assert (HW' : forall cl l, WInv c (mkW (w_state w1) (w_frames w1) (w_sent w1) cl l))
+      by (intros cl l; exact HW).
+    unfold wres_ok.
+    destruct r as [| |e]; intros [= <- <- <-]; wfields.
+    + split; [split; [apply HW'|split; [assumption|lia]]|].
+      split; [assumption|]. split; [reflexivity|]. split; [|eauto].
+      intros m [= <-]. repeat split; assumption.
+    + split; [split; [apply HW'|split; [assumption|split; [assumption|reflexivity]]]|].
+      split; [assumption|]. split; [congruence|]. split; [intros m [=]|].
+      intros Ha Hb. congruence.
+    + split; [split; [apply HW'|split; [assumption|split; assumption]]|].
+      split; [assumption|]. split; [congruence|]. split; [intros m [=]|].
+      intros Ha Hb. congruence.
+  - intros [= <- <- <-]. split; [split; [assumption|split; assumption]|].
+    split; [assumption|]. split; [congruence|]. split; [intros m [=]|]. intros Ha Hb. congruence.
+  - intros [= <- <- <-]. split; [split; [assumption|split; assumption]|].
+    split; [assumption|]. split; [congruence|]. split; [intros m [=]|]. intros Ha Hb. congruence.
+  - contradiction.
+Qed.
+
+(* judgement on one call of a writer run *)
+Definition op_len (o : wop) : N :=
+  match o with OWrite len => len | OWriteV lens => first_nonempty lens | _ => 0 end.
+
+Lemma wstep_ok c o sc w x w' sc' :
+  1 <= c_mfl c -> c_mfl c + TAG <= SNOW_MAX -> 1 <= c_wbuf c ->
+  WInv c w -> wstep c o sc w = (x, w', sc') ->
+  wres_ok c (op_len o) w x w' /\
+  (is_write o = false -> w_frames w' = w_frames w) /\
+  (w_cclosed w = true -> w_cclosed w' = true) /\
+  (w_cclosed w' = true -> w_cclosed w = false ->
+     o = OClose /\ x = WReady 0 /\ w_state w' = WIdle /\ w_sent w' = frames_wire (w_frames w')).
+Proof.
+  intros H1 H2 H3 HI. destruct o as [len| | |lens]; cbn [wstep op_len is_write].
+  - intro H. destruct (poll_write_ok c len sc w x w' sc' H1 H2 H3 HI H) as [A B].
+    split; [exact A|]. split; [discriminate|]. split; [congruence|]. intros Ha Hb. congruence.
+  - intro H. destruct (poll_flush_ok c sc w x w' sc' HI H) as (A & B & C & D).
+    split; [exact A|]. split; [intros _; exact B|]. split; [congruence|]. intros Ha Hb. congruence.
+  - intro H. destruct (poll_close_ok c sc w x w' sc' HI H) as (A & B & C & D & E).
+    split; [exact A|]. split; [intros _; exact B|]. split; [exact C|].
+    intros Ha Hb. destruct (E Ha Hb) as [n ->]. destruct (D n eq_refl) as (-> & D2 & D3 & D4).
+    repeat split; assumption.
+  - intro H. destruct (poll_write_ok c _ sc w x w' sc' H1 H2 H3 HI H) as [A B].
+    split; [exact A|]. split; [discriminate|]. split; [congruence|]. intros Ha Hb. congruence.
+Qed.
+
+(* whole writer runs: never a panic, never InvalidData; the frames' plaintext is exactly what the
+   write calls reported as accepted; Pending only with a registered waker; once the carrier is
+   closed nothing more reaches it *)
+Fixpoint wrun_ok (ops : list wop) (tr : list (wres * writer)) : Prop :=
+  match ops, tr with
+  | [], [] => True
+  | o :: ot, (x, w') :: t =>
+      match x with
+      | WReady n => n <= op_len o
+      | WPending => w_lp w' = true
+      | WErr e => e <> E_INVALID
+      | WPanic => False
+      end /\ wrun_ok ot t
+  | _, _ => False
+  end.
+
+Theorem run_writer_ok c : 1 <= c_mfl c -> c_mfl c + TAG <= SNOW_MAX -> 1 <= c_wbuf c ->
   forall ops sc w tr wf ok, WInv c w -> run_writer c ops sc w = (tr, wf, ok) ->
   ok = true /\ WInv c wf /\ sum (w_frames wf) = sum (w_frames w) + accepted ops tr /\
-  Forall (fun xw => w_is_final (fst xw) = false) tr.
+  wrun_ok ops tr /\ (w_cclosed w = true -> w_cclosed wf = true /\ w_sent wf = w_sent w).
 Proof.
-  intros H1 H2. induction ops as [|o t IH]; intros sc w tr wf ok HI; cbn [run_writer].
-  - intros [= <- <- <-]. cbn [accepted]. split; [reflexivity|]. split; [assumption|].
-    split; [lia|constructor].
+  intros H1 H2 H3. induction ops as [|o t IH]; intros sc w tr wf ok HI; cbn [run_writer].
+  - intros [= <- <- <-]. cbn [accepted wrun_ok]. split; [reflexivity|]. split; [assumption|].
+    split; [lia|]. split; [exact I|]. intros Hc. split; [assumption|reflexivity].
   - destruct (wstep c o sc w) as [[x w'] sc'] eqn:Es.
-    assert (Hx : WInv c w' /\ w_is_final x = false /\
-                 sum (w_frames w') = sum (w_frames w) +
-                   match o, x with OWrite _, WReady n => n | _, _ => 0 end).
-    { destruct o as [len|]; cbn [wstep] in Es.
-      - destruct (poll_write_ok c len sc w x w' sc' H1 H2 HI Es) as [A B].
-        destruct x; try contradiction; cbn [w_is_final].
-        + split; [exact A|]. split; [reflexivity|]. lia.
-        + split; [exact A|]. split; [reflexivity|]. rewrite B. lia.
-      - destruct (poll_flush_ok c sc w x w' sc' HI Es) as (A & B & [(-> & _)| ->]);
-          cbn [w_is_final]; rewrite B; (split; [exact A|]); (split; [reflexivity|]); lia. }
-    destruct Hx as (A & B & C). rewrite B.
+    destruct (wstep_ok c o sc w x w' sc' H1 H2 H3 HI Es) as ((A & Acs & Ax) & B & C & _).
+    assert (Hfin : w_is_final x = false) by (destruct x; try reflexivity; contradiction).
+    rewrite Hfin.
     destruct (run_writer c t sc' w') as [[l wf'] ok'] eqn:Er.
-    intros [= <- <- <-]. destruct (IH _ _ _ _ _ A Er) as (I1 & I2 & I3 & I4).
-    split; [assumption|]. split; [assumption|]. split.
-    + rewrite I3, C. destruct o as [len|]; cbn [accepted]; destruct x; try lia; discriminate.
-    + constructor; assumption.
+    intros [= <- <- <-]. destruct (IH _ _ _ _ _ A Er) as (I1 & I2 & I3 & I4 & I5).
+    split; [assumption|]. split; [assumption|]. split; [|split].
+    + rewrite I3. cbn [accepted].
+      destruct x as [n| |e|]; try contradiction.
+      * destruct Ax as [_ Ax]. destruct (is_write o) eqn:Ew; [lia|].
+        rewrite (B eq_refl). lia.
+      * destruct Ax as [Ax _]. rewrite Ax. lia.
+      * destruct Ax as [Ax _]. rewrite Ax. lia.
+    + cbn [wrun_ok]. split; [|assumption].
+      destruct x as [n| |e|]; try contradiction; tauto.
+    + intro Hc. destruct (I5 (C Hc)) as [J1 J2]. split; [assumption|]. rewrite J2. apply Acs, Hc.
+Qed.
+
+(* a completed close inside a run: at that moment nothing accepted so far is missing from the
+   carrier, and nothing is handed to the carrier afterwards *)
+Theorem close_flushes c : 1 <= c_mfl c -> c_mfl c + TAG <= SNOW_MAX -> 1 <= c_wbuf c ->
+  forall sc w x w' sc', WInv c w -> poll_close c sc w = (x, w', sc') ->
+  forall n, x = WReady n ->
+  w_state w' = WIdle /\ w_frames w' = w_frames w /\ w_sent w' = frames_wire (w_frames w) /\
+  w_cclosed w' = true /\
+  forall ops sc2 tr wf ok, run_writer c ops sc2 w' = (tr, wf, ok) ->
+    w_sent wf = frames_wire (w_frames w) /\ w_cclosed wf = true.
+Proof.
+  intros H1 H2 H3 sc w x w' sc' HI Hc n Hx.
+  destruct (poll_close_ok c sc w x w' sc' HI Hc) as ((A & _) & B & C & D & E).
+  destruct (D n Hx) as (_ & D2 & D3 & D4). rewrite B in D3.
+  split; [assumption|]. split; [assumption|]. split; [assumption|]. split; [assumption|].
+  intros ops sc2 tr wf ok Hr.
+  destruct (run_writer_ok c H1 H2 H3 ops sc2 w' tr wf ok A Hr) as (_ & _ & _ & _ & I5).
+  destruct (I5 D4) as [J1 J2]. split; [lia|assumption].
+Qed.
+
+Lemma sent_frames_all l : sent_frames l (frames_wire l) = l.
+Proof.
+  induction l as [|x t IH]; cbn [sent_frames frames_wire]; [reflexivity|].
+  destruct (2 + (x + TAG) <=? 2 + (x + TAG) + frames_wire t) eqn:E; [|lia].
+  replace (2 + (x + TAG) + frames_wire t - (2 + (x + TAG))) with (frames_wire t) by lia.
+  rewrite IH. reflexivity.
 Qed.
 
 (* ------------------------------------------------------------------ tampered wires *)
@@ -782,12 +1124,6 @@ Proof.
   induction l as [|x t IH]; cbn [pstart]; intros k j H; [lia|].
   destruct (k =? 0) eqn:Ek; [lia|]. destruct (j =? 0) eqn:Ej; [lia|].
   specialize (IH (k - 1) (j - 1)). lia.
-Qed.
-
-Lemma inv_D_le e D r : Inv e D r -> D <= pstart (e_plains e) (r_ctr r).
-Proof.
-  destruct r as [st nread offset cfs wbase ctr pbase]. unfold Inv. rfields.
-  destruct st, cfs; intros H; try tauto; decompose [and] H; lia.
 Qed.
 
 Lemma step_len_ctr e r r1 res : step_len e r = (r1, res) -> r_ctr r1 = r_ctr r.
@@ -811,8 +1147,8 @@ Lemma proc_ctr e D b j r r2 x : Inv e D r -> r_ctr r <= j -> not_auth e j ->
   proc e b r = (r2, x) -> r_ctr r2 <= j.
 Proof.
   intros HI Hj Hna.
-  destruct r as [st nread offset cfs wbase ctr pbase]. unfold proc, Inv in *. rfields.
-  destruct st as [mr| | |poff psize pfs]; try (intros [= <- <-]; rfields; assumption).
+  destruct r as [st nread offset cfs wbase ctr pbase lp]. unfold proc, Inv in *. rfields.
+  destruct st as [mr| | |poff psize pfs|]; try (intros [= <- <-]; rfields; assumption).
   - destruct cfs as [fs|]; [|tauto].
     destruct HI as (Hp & Hcur & (it & Hit & Hh) & _).
     destruct (fs <? TAG); [intros [= <- <-]; rfields; assumption|].
@@ -832,10 +1168,13 @@ Proof.
     destruct (psize - poff <=? b); intros [= <- <-]; rfields; assumption.
 Qed.
 
-Lemma poll_ctr e b j : wf_env e -> not_auth e j -> forall sc D r x r' sc',
-  Inv e D r -> r_ctr r <= j -> poll_read e b sc r = (x, r', sc') -> r_ctr r' <= j.
+Lemma set_lp_ctr r l : r_ctr (set_lp r l) = r_ctr r.
+Proof. destruct r; reflexivity. Qed.
+
+Lemma poll_go_ctr e b j : wf_env e -> not_auth e j -> forall sc D r x r' sc',
+  Inv e D r -> r_ctr r <= j -> poll_go e b sc r = (x, r', sc') -> r_ctr r' <= j.
 Proof.
-  intros W Hna. induction sc as [|s t IH]; intros D r x r' sc' HI Hj; cbn [poll_read];
+  intros W Hna. induction sc as [|s t IH]; intros D r x r' sc' HI Hj; cbn [poll_go];
     destruct (match r_state r with ReadFrameLen => step_len e r | _ => (r, None) end)
       as [r1 res] eqn:Epre;
     (assert (Hc : r_ctr r1 = r_ctr r)
@@ -847,18 +1186,21 @@ Proof.
     (destruct res as [y|]; [intros [= <- <- <-]; lia|]); specialize (HI1 eq_refl).
   - destruct (r_state r1) eqn:Es1.
     + destruct ((max_read <? r_nread r1) || (rbuf_len (e_cfg e) <? max_read));
-        intros [= <- <- <-]; lia.
+        intros [= <- <- <-]; rewrite ?set_lp_ctr; lia.
     + intros [= <- <- <-]; lia.
     + destruct (proc e b r1) as [r2 y] eqn:Ep. intros [= <- <- <-].
       eapply proc_ctr; try eassumption. lia.
     + destruct (proc e b r1) as [r2 y] eqn:Ep. intros [= <- <- <-].
       eapply proc_ctr; try eassumption. lia.
+    + intros [= <- <- <-]; lia.
   - destruct (r_state r1) eqn:Es1.
     + destruct (readdata_bounds e D r1 _ W HI1 Es1) as [Hb1 Hb2].
       destruct ((max_read <? r_nread r1) || (rbuf_len (e_cfg e) <? max_read)) eqn:Ep; [lia|].
-      destruct (s =? 0); [intros [= <- <- <-]; lia|].
+      destruct (s =? 0); [intros [= <- <- <-]; rewrite set_lp_ctr; lia|].
+      destruct (s =? SPECIAL); [intros [= <- <- <-]; rewrite set_lp_ctr; lia|].
+      destruct (SPECIAL <? s); [intros [= <- <- <-]; rewrite set_lp_ctr; lia|].
       set (k := N.min s (N.min (max_read - r_nread r1) (e_avail e - (r_wbase r1 + r_nread r1)))).
-      destruct (k =? 0) eqn:Ek; [intros [= <- <- <-]; lia|].
+      destruct (k =? 0) eqn:Ek; [intros [= <- <- <-]; rewrite set_lp_ctr; lia|].
       intro Hrec. eapply IH; [| |exact Hrec].
       * eapply read_inv; try eassumption; unfold k; lia.
       * rfields. lia.
@@ -867,6 +1209,14 @@ Proof.
       eapply proc_ctr; try eassumption. lia.
     + destruct (proc e b r1) as [r2 y] eqn:Ep. intros [= <- <- <-].
       eapply proc_ctr; try eassumption. lia.
+    + intros [= <- <- <-]; lia.
+Qed.
+
+Lemma poll_ctr e b j : wf_env e -> not_auth e j -> forall sc D r x r' sc',
+  Inv e D r -> r_ctr r <= j -> poll_read e b sc r = (x, r', sc') -> r_ctr r' <= j.
+Proof.
+  intros W Hna sc D r x r' sc' HI Hj H. unfold poll_read in H.
+  eapply (poll_go_ctr e b j W Hna sc D (set_lp r false)); [apply inv_set_lp; exact HI | rewrite set_lp_ctr; exact Hj | exact H].
 Qed.
 
 Lemma run_bound e j : wf_env e -> not_auth e j -> forall bufs sc D r,
@@ -882,7 +1232,7 @@ Proof.
     destruct x as [n pos| |err|]; cbn [is_final res_ok delivered] in *.
     + destruct H as (_ & _ & _ & H). specialize (IH sc' _ _ H Hj'). lia.
     + specialize (IH sc' _ _ H Hj'). lia.
-    + lia.
+    + destruct H as [H _]. specialize (IH sc' _ _ H Hj'). lia.
     + lia.
 Qed.
 
@@ -899,24 +1249,108 @@ Qed.
 Lemma writer_init_inv c : WInv c writer_init.
 Proof. split; [constructor | reflexivity]. Qed.
 
-Theorem end_to_end c : 1 <= c_factor c -> 1 <= c_mfl c -> c_mfl c + TAG <= SNOW_MAX ->
+Theorem end_to_end c :
+  1 <= c_factor c -> 1 <= c_mfl c -> c_mfl c + TAG <= SNOW_MAX -> 1 <= c_wbuf c ->
   forall ops wsc tr w ok, run_writer c ops wsc writer_init = (tr, w, ok) ->
   forall bufs rsc,
   let plains := w_frames w in
   let rt := run_reader (honest_env c plains) bufs rsc (reader_init c) in
   ok = true /\ sum plains = accepted ops tr /\
+  (w_state w = WIdle -> sent_frames plains (w_sent w) = plains) /\
   pieces_ok 0 bufs rt /\
-  (forall x r', In (x, r') rt -> x <> RErr E_INVALID) /\
-  (forall r', In (RErr E_EOF, r') rt -> r_wbase r' + r_nread r' = wire_len (honest plains) ->
-              delivered rt = accepted ops tr).
+  honest_ok (wire_len (honest plains)) (accepted ops tr) 0 rt.
 Proof.
-  intros Hf H1 H2 ops wsc tr w ok Hr bufs rsc plains rt.
-  destruct (run_writer_ok c H1 H2 ops wsc writer_init tr w ok (writer_init_inv c) Hr)
-    as (-> & [HF _] & Hs & _).
+  intros Hf H1 H2 H3 ops wsc tr w ok Hr bufs rsc plains rt.
+  destruct (run_writer_ok c H1 H2 H3 ops wsc writer_init tr w ok (writer_init_inv c) Hr)
+    as (-> & [HF HS] & Hs & _).
   cbn [writer_init w_frames sum] in Hs.
-  destruct (read_honest c plains Hf H2 HF bufs rsc) as (A & B & C).
-  split; [reflexivity|]. split; [unfold plains; lia|]. split; [exact A|]. split; [exact B|].
-  intros r' Hin Hall. specialize (C r' Hin Hall). unfold rt, plains in *. lia.
+  destruct (read_honest c plains Hf H2 HF bufs rsc) as (A & B).
+  split; [reflexivity|]. split; [unfold plains; lia|]. split; [|split; [exact A|]].
+  - intro Hi. rewrite Hi in HS. unfold plains. rewrite <- HS. apply sent_frames_all.
+  - replace (accepted ops tr) with (sum plains) by (unfold plains; lia). exact B.
+Qed.
+
+(* ------------------------------------------------------------------ wake-ups, empty buffers *)
+
+Lemma step_len_not_pending e r r1 : step_len e r <> (r1, Some RPending).
+Proof.
+  unfold step_len.
+  destruct (r_nread r <? r_offset r); [discriminate|].
+  destruct (r_nread r - r_offset r <? 2); [discriminate|].
+  destruct (r_cfs r) as [fs|].
+  - cbv beta iota zeta.
+    destruct (r_nread r - r_offset r <? fs).
+    + destruct (r_nread r + fs <? cmax (e_cfg e)); discriminate.
+    + destruct (fs <=? TAG); discriminate.
+  - destruct (hdr_at (e_items e) (r_wbase r + r_offset r)) as [fs|]; cbv beta iota zeta.
+    + destruct (r_nread r - r_offset r - 2 <? fs).
+      * destruct (r_nread r + fs <? cmax (e_cfg e)); discriminate.
+      * destruct (fs <=? TAG); discriminate.
+    + discriminate.
+Qed.
+
+Lemma proc_not_pending e b r r2 : proc e b r <> (r2, RPending).
+Proof.
+  unfold proc. destruct (r_state r) as [mr| | |poff psize pfs|]; try discriminate.
+  - destruct (r_cfs r) as [fs|]; [|discriminate].
+    destruct (fs <? TAG); [discriminate|].
+    destruct (rbuf_len (e_cfg e) <? r_offset r + fs); [discriminate|].
+    destruct (r_nread r <? r_offset r + fs); [discriminate|].
+    destruct (SNOW_MAX <? fs); [discriminate|].
+    destruct (body_ok (e_items e) (r_ctr r) (r_wbase r + r_offset r) fs).
+    + destruct (fs - TAG <=? b); [discriminate|].
+      destruct (c_mfl (e_cfg e) <? fs - TAG); discriminate.
+    + destruct (fs - TAG <=? b); [discriminate|].
+      destruct (c_mfl (e_cfg e) <? fs - TAG); discriminate.
+  - destruct (psize <? poff); [discriminate|].
+    destruct (psize - poff <=? b); discriminate.
+Qed.
+
+(* poll_read = Pending only when the last carrier call of this poll returned Pending, i.e. the
+   carrier holds the waker: no lost wake-up *)
+Lemma poll_go_pending e b : forall sc r r' sc',
+  poll_go e b sc r = (RPending, r', sc') -> r_lp r' = true.
+Proof.
+  induction sc as [|s t IH]; intros r r' sc'; cbn [poll_go];
+    destruct (match r_state r with ReadFrameLen => step_len e r | _ => (r, None) end)
+      as [r1 res] eqn:Epre;
+    (destruct res as [y|];
+     [intros [= -> <- <-]; destruct (r_state r); try discriminate;
+      exfalso; exact (step_len_not_pending e r r1 Epre)|]).
+  - destruct (r_state r1) eqn:Es1.
+    + destruct ((max_read <? r_nread r1) || (rbuf_len (e_cfg e) <? max_read)); discriminate.
+    + discriminate.
+    + destruct (proc e b r1) as [r2 y] eqn:Ep. intros [= -> <- <-].
+      exfalso; exact (proc_not_pending e b r1 r2 Ep).
+    + destruct (proc e b r1) as [r2 y] eqn:Ep. intros [= -> <- <-].
+      exfalso; exact (proc_not_pending e b r1 r2 Ep).
+    + discriminate.
+  - destruct (r_state r1) eqn:Es1.
+    + destruct ((max_read <? r_nread r1) || (rbuf_len (e_cfg e) <? max_read)); [discriminate|].
+      destruct (s =? 0); [intros [= <- <-]; destruct r1; reflexivity|].
+      destruct (s =? SPECIAL); [discriminate|].
+      destruct (SPECIAL <? s); [discriminate|].
+      destruct (N.min s (N.min (max_read - r_nread r1) (e_avail e - (r_wbase r1 + r_nread r1))) =? 0);
+        [discriminate|]. apply IH.
+    + discriminate.
+    + destruct (proc e b r1) as [r2 y] eqn:Ep. intros [= -> <- <-].
+      exfalso; exact (proc_not_pending e b r1 r2 Ep).
+    + destruct (proc e b r1) as [r2 y] eqn:Ep. intros [= -> <- <-].
+      exfalso; exact (proc_not_pending e b r1 r2 Ep).
+    + discriminate.
+Qed.
+
+Theorem read_pending_has_waker e b sc r r' sc' :
+  poll_read e b sc r = (RPending, r', sc') -> r_lp r' = true.
+Proof. unfold poll_read. apply poll_go_pending. Qed.
+
+(* an empty write never blocks and accepts nothing *)
+Lemma poll_write_empty c sc w x w' sc' : poll_write c 0 sc w = (x, w', sc') ->
+  x = WReady 0 \/ (exists e, x = WErr e) \/ x = WPanic.
+Proof.
+  unfold poll_write. destruct (wpre c sc w) as [[[dres st1] sent1] sc1].
+  replace (0 =? 0) with true by reflexivity.
+  destruct dres; intros [= <- <- <-]; eauto.
 Qed.
 
 Lemma consts_ok :
